@@ -114,6 +114,8 @@ class Program:
                     replies.append(json.loads(line))
                 except ValueError:
                     replies.append({'cmd': 'UNPARSABLE', 'raw': line[:400]})
+        if replies and replies[-1].get('cmd') == 'STUCK':
+            return replies
         if proc.returncode != 0 or not replies or replies[-1].get('cmd') != 'quit':
             replies.append({'cmd': 'CRASH', 'rc': proc.returncode, 'stderr': proc.stderr[-3000:]})
         return replies
